@@ -140,16 +140,40 @@ Theorem translate_minus_general : forall id aa st s start,
   = map (general_lookup (ncbi_tbl id)) (codons (skipn (Z.to_nat start) (rc_pure dna_comp_new s))).
 Proof. exact translate_minus_general_lemma. Qed.
 
+(* ------------------------------------------------------------------ the byte width of the index array (finding C12-4) *)
+
+(** [translate_w fm fd] is [GeneticCode.translate] with the numpy dtype of the k-mer index array
+    and [tobytes()] made explicit.  [fd = true]: dtype from the size of the codon alphabet
+    (repair C12-4); then it IS the width-free model all theorems above speak about, for every
+    length ([fm] = with / without the minus-strand repair C12-1). *)
+Theorem translate_with_dtype_repair_all_lengths : forall fm aa s start rc,
+  valid_dna s ->
+  translate_w fm true aa s start rc = (if fm then translate else translate_pinned) aa s start rc.
+Proof. exact translate_w_fixed_lemma. Qed.
+
+(** [fd = false]: dtype from the NUMBER of codons (the code before the repair): right for every
+    sequence shorter than 768 symbols (fewer than 256 codons in every frame), whatever the symbols ... *)
+Theorem translate_dtype_pinned_guarded : forall fm aa s start rc,
+  zlen s < 768 -> translate_w fm false aa s start rc = translate_w fm true aa s start rc.
+Proof. exact translate_w_guarded_lemma. Qed.
+
+(** ... and wrong at 768 (ATG x 256: two bytes per codon reach bytes.translate) *)
+Theorem translate_dtype_pinned_refuted :
+  exists id aa st s,
+    In (id, aa, st) new_codes /\ canon_str s /\ zlen s = 768 /\
+    (forall fm, translate_w fm false aa s 0 false <> frame_plus (ncbi_tbl id) s 0).
+Proof. exact translate_w_unrepaired_refuted_lemma. Qed.
+
 (* ------------------------------------------------------------------ stop codons: trimmed, kept or rejected *)
 
 (** Sequence.get_translation(incomplete_ok, include_stop, trim_stop) on a canonical sequence of ANY
-    length (with repair C12-2): [stop_spec] = reject an incomplete sequence when trimming strictly;
+    length (with repairs C12-2 and, for the new objects, C12-4): [stop_spec] = reject an incomplete sequence when trimming strictly;
     drop a terminal stop codon when trimming; reject any remaining stop unless include_stop;
     otherwise the codon-by-codon translation.  [ropt] forgets the exception class.
     new objects trim whenever trim_stop; old objects only when not include_stop. *)
 Theorem get_translation_new_stop_spec : forall id aa st s ok inc trim,
   In (id, aa, st) new_codes -> canon_str s ->
-  ropt (seq_get_translation_new true aa s ok inc trim)
+  ropt (seq_get_translation_new true true aa s ok inc trim)
   = stop_spec (ncbi_tbl id) (eff_trim_new inc trim) inc ok s.
 Proof. exact seq_get_translation_new_spec_lemma. Qed.
 
